@@ -42,7 +42,10 @@ AllFraming(nxt) == \A c \in All : FramingOk(nxt[c], pf.ws)
 \* answers of a session to its consumer (ids from ReplyBase on) that are not what was enqueued
 Rep(s) == SelectSeq(s, LAMBDA p : p.id >= ReplyBase)
 ReplyDiff(e, nxt) == \E c \in All : Rep(Infl(nxt[c]) \o Delta(con[c], nxt[c])) # Rep(e.infl[c] \o e.wire[c])
-Judge(e, nxt) == IF ~ObsOk(e, nxt) THEN (IF ReplyDiff(e, nxt) THEN "ReplyAltered" ELSE "Mismatch")
+\* a consumer that had to be disconnected by this step is still connected
+StillThere(e, nxt) == \E c \in All : nxt[c].closed /\ ~e.closed[c]
+Judge(e, nxt) == IF ~ObsOk(e, nxt) THEN (IF ReplyDiff(e, nxt) THEN "ReplyAltered"
+                                          ELSE IF StillThere(e, nxt) THEN "NotDisconnected" ELSE "Mismatch")
                  ELSE IF ~AllFraming(nxt) THEN "WholeUnits" ELSE "ok"
 Do(e, nxt) == LET j == Judge(e, nxt) IN IF j = "ok" THEN Step(nxt) ELSE Reject(j)
 
@@ -181,6 +184,13 @@ TraceTcp ==
      ELSE IF e.step = "publish2" /\ e.saturated /\ e.departed < e.stalled THEN Reject("NotDisconnected")
      ELSE Pass
 
+\* the consumer sends something the session does not answer (an RTCP receiver report): nothing changes - in particular a
+\* consumer that takes nothing is disconnected by the sweep whatever it sends
+TraceRR == /\ IsEvent("RR")
+           /\ IF skip \/ failed THEN Pass
+              ELSE IF Trace[l].blocked THEN Reject("NoBlocking")
+              ELSE Do(Trace[l], con)
+
 TraceDrain ==
   /\ IsEvent("Drain")
   /\ LET e == Trace[l]
@@ -197,7 +207,7 @@ TraceDrain ==
         ELSE Step(nxt)
 
 TraceNext == \/ TraceReset \/ TracePubArrive \/ TracePubLeave \/ TraceJoin \/ TracePublish \/ TraceStall \/ TraceResume
-             \/ TraceRead \/ TraceFire \/ TraceSweep \/ TraceDrain \/ TracePublishB \/ TraceStat \/ TraceCmd \/ TraceTcp
+             \/ TraceRead \/ TraceFire \/ TraceSweep \/ TraceDrain \/ TracePublishB \/ TraceStat \/ TraceCmd \/ TraceTcp \/ TraceRR
 TraceSpec == TraceInit /\ [][TraceNext]_tvars
 HighWater == TLCSet(1, IF l > TLCGet(1) THEN l ELSE TLCGet(1))
 Accept == PrintT("@HW@" \o ToString(TLCGet(1)))
